@@ -40,6 +40,7 @@ type Exec struct {
 	witnesses []witness
 	curTrail  []string
 	callSeen  map[string]bool
+	inlineLoopSeen map[string]bool // "callee.N": loop N of an inlined function was met
 	topLets   map[string]Val
 	curTag    string
 	atTags    map[string]bool
@@ -527,10 +528,24 @@ func (e *loopEffects) add(ts []modTarget) {
 }
 
 func (x *Exec) loopClauses(fr *Frame, li *loopInfo) []*Clause {
-	if fr.fc == nil {
-		return nil
+	var cs []*Clause
+	if fr.fc != nil {
+		cs = fr.fc.Loops[li.ordinal]
 	}
-	return fr.fc.Loops[li.ordinal]
+	if !fr.top {
+		// clauses the function under verification states for the loops of a function inlined into it
+		t := fr
+		for t.parent != nil {
+			t = t.parent
+		}
+		if t.fc != nil && t.fc.InlineLoops != nil {
+			x.inlineLoopSeen[fmt.Sprintf("%s.%d", fr.fn.Name(), li.ordinal)] = true
+			if m := t.fc.InlineLoops[fr.fn.Name()]; m != nil {
+				cs = append(append([]*Clause(nil), cs...), m[li.ordinal]...)
+			}
+		}
+	}
+	return cs
 }
 
 func (x *Exec) loopHead(fr *Frame, li *loopInfo, pre *State) (*State, error) {
